@@ -40,12 +40,7 @@ def run(ck):
     gn = [n for n in S.calls_to(rt, "generateRotatedFileName")]
     ck.require(len(ni) == 1 and len(gn) == 1, "rotate(): index search / name generation not found")
     d1, d2 = skip_copies(ni[0]["args"][0]), skip_copies(gn[0]["args"][0])
-    same = d1.get("k") == "ref" and d2.get("k") == "ref" and d1.get("decl") == d2.get("decl")
-    ck.ob("C09-O1", sitestr(rt, gn[0]), same, "the same date value is used for the index search and for the name" if same else
-          "index is searched for %s but the name uses %s" % (describe(d1), describe(d2)), key="rotate|two-dates")
-    idx_arg = deref_local(rt, gn[0]["args"][1])
-    ck.ob("C09-O1", sitestr(rt, gn[0]), idx_arg.get("id") == ni[0]["id"], "the name's index is the result of findNextIndexForDate" if idx_arg.get("id") == ni[0]["id"] else "the name's index is %s" % describe(idx_arg),
-          key="rotate|index-source")
+    same = index_feeds_name(ck, S, "C09-O1")
     if same:
         _, var = local_var(rt, d1["decl"])
         init = var.get("init") if var else None
@@ -446,6 +441,26 @@ def daily(ck, S, DF, RID="C09-O5"):
             res[(e_, sz)] = vals
     ok = res[(True, 7)] == ["mtime"] and all(res[k] == ["today"] for k in res if k != (True, 7))
     ck.ob(RID, sitestr(it), ok, "start-up: file date = last-modified date iff the file exists and is non-empty, else today" if ok else "start-up file date: %s" % res, key="init|startup-date")
+
+
+def index_feeds_name(ck, S, rid):
+    """rotate(): the index in the rotated name is the result of the directory scan made for the very date the name carries (a remembered or separately
+    computed index is handed out again as soon as the scan would have answered differently: the rename is refused and the active file keeps growing, or - with
+    compression - the previous archive of that name is overwritten)"""
+    rt = S.m["rotate"]
+    ni = [n for n in S.calls_to(rt, "findNextIndexForDate")]
+    gn = [n for n in S.calls_to(rt, "generateRotatedFileName")]
+    if len(ni) != 1 or len(gn) != 1:
+        ck.ob(rid, sitestr(rt), None, "rotate(): index search / name generation not found (%d / %d)" % (len(ni), len(gn)))
+        return False
+    d1, d2 = skip_copies(ni[0]["args"][0]), skip_copies(gn[0]["args"][0])
+    same = d1.get("k") == "ref" and d2.get("k") == "ref" and d1.get("decl") == d2.get("decl")
+    ck.ob(rid, sitestr(rt, gn[0]), same, "the same date value is used for the index search and for the name" if same else
+          "index is searched for %s but the name uses %s" % (describe(d1), describe(d2)), key="rotate|two-dates")
+    idx_arg = deref_local(rt, gn[0]["args"][1])
+    ck.ob(rid, sitestr(rt, gn[0]), idx_arg.get("id") == ni[0]["id"], "the name's index is the result of findNextIndexForDate" if idx_arg.get("id") == ni[0]["id"] else "the name's index is %s" % describe(idx_arg),
+          key="rotate|index-source")
+    return same
 
 
 def next_index(ck, S, RULE):
